@@ -22,6 +22,8 @@ structure PCtx where
   hi : Nat → Word                   -- the memory at and above the link slot `sp + S` (caller frames; never written)
   gnames : List String              -- global names that no local of this instance may hide
   dep : Nat                         -- nesting depth of this instance
+  abase : Nat → Nat := fun _ => 0   -- word address of the global array with the given id
+  asize : Nat → Nat := fun _ => 0   -- its length (0: no such array)
 
 def PCtx.S (K : PCtx) : Nat := (frameOf K.out K.ctx.frame).size
 /-- Address of the frame slot with (non-negative) frame offset `k`. -/
@@ -29,6 +31,8 @@ def PCtx.slot (K : PCtx) (k : Nat) : Nat := K.sp + K.S - 1 - k
 def PCtx.low (K : PCtx) (c : Code) : List Dir := lowerCode K.out c
 /-- The return address stored in the link slot `sp + S`. -/
 def PCtx.link (K : PCtx) : Word := K.hi (K.sp + K.S)
+/-- The word `a` is an element of a global array. -/
+def PCtx.inArr (K : PCtx) (a : Nat) : Prop := ∃ id, K.abase id ≤ a ∧ a < K.abase id + K.asize id
 
 structure PCtx.WF (K : PCtx) : Prop where
   nodup : (labelNames K.env.ds).Nodup
@@ -42,6 +46,11 @@ structure PCtx.WF (K : PCtx) : Prop where
   sp_ge : 2 ≤ K.sp
   sp_le : K.sp + K.S ≤ memWords
   loc_sep : ∀ n a, K.loc n = some a → a < K.sp ∨ K.sp + K.S ≤ a + K.nlocals
+  arr_hi : ∀ id, K.asize id ≠ 0 → K.sp + K.S < K.abase id ∧ K.abase id + K.asize id ≤ memWords
+  arr_disj : ∀ id1 id2, id1 ≠ id2 → K.asize id1 ≠ 0 → K.asize id2 ≠ 0 →
+    K.abase id1 + K.asize id1 ≤ K.abase id2 ∨ K.abase id2 + K.asize id2 ≤ K.abase id1
+  arr_code : ∀ id k, k < K.asize id → K.env.isCode (K.abase id + k) = false
+  loc_na : ∀ n a, K.loc n = some a → ¬ K.inArr a
 
 /-- The name `n` is bound to the `val` `w` (locally, or globally and not hidden). -/
 def ValBound (xc : X.Ctx) (σ : X.St) (n : String) (w : Word) : Prop :=
@@ -67,12 +76,40 @@ structure Rep (K : PCtx) (σ : X.St) (mem : Mem) : Prop where
   consts : ∀ v l j k, (v, l) ∈ K.consts → K.env.ds[j]? = some (.label k l) →
     mem.read (K.env.addr j / 4) = IAm.W v
   locs : ∀ n, IsVar K.xc σ n → ∃ a, K.loc n = some a ∧ a < K.sp + K.S
-  above : ∀ a, K.sp + K.S ≤ a → mem.read a = K.hi a
+  above : ∀ a, K.sp + K.S ≤ a → ¬ K.inArr a → mem.read a = K.hi a
   gvis : ∀ n, n ∈ K.gnames → σ.locals.lookup n = none
   depth : σ.depth = K.dep
+  aptr : ∀ n r, X.readName K.xc σ n = .ok (.arr r) →
+    ∃ id a, r = .glob id ∧ K.loc n = some a ∧ a < memWords ∧ mem.read a = BitVec.ofNat 32 (K.abase id)
+  acells : ∀ id cells, σ.arrays[id]? = some cells → cells.size = K.asize id ∧
+    ∀ idx w, cells[idx]? = some (some w) → mem.read (K.abase id + idx) = w
 
-theorem Rep.link {K : PCtx} {σ : X.St} {mem : Mem} (h : Rep K σ mem) : mem.read (K.sp + K.S) = K.link :=
-  h.above _ (Nat.le_refl _)
+/-- The array part of `PCtx.WF`. -/
+structure PCtx.ArrOK (K : PCtx) : Prop where
+  arr_hi : ∀ id, K.asize id ≠ 0 → K.sp + K.S < K.abase id ∧ K.abase id + K.asize id ≤ memWords
+  arr_disj : ∀ id1 id2, id1 ≠ id2 → K.asize id1 ≠ 0 → K.asize id2 ≠ 0 →
+    K.abase id1 + K.asize id1 ≤ K.abase id2 ∨ K.abase id2 + K.asize id2 ≤ K.abase id1
+  arr_code : ∀ id k, k < K.asize id → K.env.isCode (K.abase id + k) = false
+  loc_na : ∀ n a, K.loc n = some a → ¬ K.inArr a
+
+/-- A context without arrays. -/
+theorem PCtx.not_inArr_of_none (K : PCtx) (h : ∀ id, K.asize id = 0) (a : Nat) : ¬ K.inArr a := by
+  intro ⟨id, h1, h2⟩
+  rw [h id] at h2
+  omega
+
+theorem PCtx.arrOK_of_none (K : PCtx) (h : ∀ id, K.asize id = 0) : K.ArrOK :=
+  ⟨fun id hz => absurd (h id) hz, fun id1 _ _ hz _ => absurd (h id1) hz, fun id k hk => by rw [h id] at hk; omega,
+   fun _ a _ => K.not_inArr_of_none h a⟩
+
+theorem PCtx.WF.not_inArr {K : PCtx} (wf : K.WF) (a : Nat) (h : a ≤ K.sp + K.S) : ¬ K.inArr a := by
+  intro ⟨id, h1, h2⟩
+  have hz : K.asize id ≠ 0 := by omega
+  have := (wf.arr_hi id hz).1
+  omega
+
+theorem Rep.link {K : PCtx} (wf : K.WF) {σ : X.St} {mem : Mem} (h : Rep K σ mem) : mem.read (K.sp + K.S) = K.link :=
+  h.above _ (Nat.le_refl _) (wf.not_inArr _ (Nat.le_refl _))
 
 theorem Rep.valsOk {K : PCtx} {σ : X.St} {mem : Mem} (h : Rep K σ mem) : ValsOk K.ρ K.xc σ :=
   fun n w hn => (h.vals n w hn).read
@@ -81,7 +118,9 @@ theorem Rep.same {K : PCtx} {σ σ' : X.St} {mem : Mem} (h : Rep K σ mem) (hs :
   ⟨h.sp, fun n w hn => by have := h.vals n w hn; unfold ValBound at this ⊢; rw [hs.2.1]; exact this,
    fun n w hn hr => h.vars n w hn (by rw [← readName_same K.xc σ σ' n hs]; exact hr), h.consts,
    fun n hv => h.locs n (by unfold IsVar at hv ⊢; rw [← hs.2.1]; exact hv), h.above,
-   fun n hn => by rw [hs.2.1]; exact h.gvis n hn, by rw [hs.2.2.2.2.2]; exact h.depth⟩
+   fun n hn => by rw [hs.2.1]; exact h.gvis n hn, by rw [hs.2.2.2.2.2]; exact h.depth,
+   fun n r hr => h.aptr n r (by rw [← readName_same K.xc σ σ' n hs]; exact hr),
+   fun id cells hc => h.acells id cells (by rw [← hs.2.2.1]; exact hc)⟩
 
 /-- Memory changed at most in the frame slots with offsets in `[lo, hi)`. -/
 def Frm (K : PCtx) (lo hi : Nat) (mem mem' : Mem) : Prop :=
@@ -98,18 +137,18 @@ theorem Frm.mono {K : PCtx} {lo hi lo' hi' : Nat} {m1 m2 : Mem} (h : Frm K lo hi
 /-- The same, for the addresses at and above the stack pointer only: what lies below (frames of
     callees) is not constrained. -/
 def FrmC (K : PCtx) (lo hi : Nat) (mem mem' : Mem) : Prop :=
-  ∀ a, K.sp ≤ a → (∀ k, lo ≤ k → k < hi → a ≠ K.slot k) → mem'.read a = mem.read a
+  ∀ a, K.sp ≤ a → ¬ K.inArr a → (∀ k, lo ≤ k → k < hi → a ≠ K.slot k) → mem'.read a = mem.read a
 
 theorem Frm.toC {K : PCtx} {lo hi : Nat} {m1 m2 : Mem} (h : Frm K lo hi m1 m2) : FrmC K lo hi m1 m2 :=
-  fun a _ ha => h a ha
+  fun a _ _ ha => h a ha
 
-theorem FrmC.refl (K : PCtx) (lo hi : Nat) (mem : Mem) : FrmC K lo hi mem mem := fun _ _ _ => rfl
+theorem FrmC.refl (K : PCtx) (lo hi : Nat) (mem : Mem) : FrmC K lo hi mem mem := fun _ _ _ _ => rfl
 
 theorem FrmC.trans {K : PCtx} {lo hi : Nat} {m1 m2 m3 : Mem} (h1 : FrmC K lo hi m1 m2) (h2 : FrmC K lo hi m2 m3) :
-    FrmC K lo hi m1 m3 := fun a hs ha => by rw [h2 a hs ha, h1 a hs ha]
+    FrmC K lo hi m1 m3 := fun a hs hn ha => by rw [h2 a hs hn ha, h1 a hs hn ha]
 
 theorem FrmC.mono {K : PCtx} {lo hi lo' hi' : Nat} {m1 m2 : Mem} (h : FrmC K lo hi m1 m2) (hl : lo' ≤ lo) (hh : hi ≤ hi') :
-    FrmC K lo' hi' m1 m2 := fun a hs ha => h a hs (fun k h1 h2 => ha k (by omega) (by omega))
+    FrmC K lo' hi' m1 m2 := fun a hs hn ha => h a hs hn (fun k h1 h2 => ha k (by omega) (by omega))
 
 theorem slot_ge (K : PCtx) (k : Nat) (h : k < K.S) : K.sp ≤ K.slot k := by unfold PCtx.slot; omega
 
@@ -121,9 +160,22 @@ theorem Rep.frame {K : PCtx} (wf : K.WF) {σ : X.St} {mem mem' : Mem} {lo hi : N
     intro k h1 h2
     unfold PCtx.slot
     omega
-  refine ⟨?_, h.vals, ?_, ?_, h.locs, ?_, h.gvis, h.depth⟩
+  refine ⟨?_, h.vals, ?_, ?_, h.locs, ?_, h.gvis, h.depth, ?_, ?_⟩
   rotate_left 3
-  · intro a ha; rw [key a (Or.inr (by omega))]; exact h.above a ha
+  · intro a ha hna; rw [key a (Or.inr (by omega))]; exact h.above a ha hna
+  · intro n r hr
+    obtain ⟨id, a, hid, ha, hlt, hv⟩ := h.aptr n r hr
+    exact ⟨id, a, hid, ha, hlt, by rw [key a (wf.loc_sep n a ha)]; exact hv⟩
+  · intro id cells hc
+    obtain ⟨hsz, hv⟩ := h.acells id cells hc
+    refine ⟨hsz, fun idx w hi => ?_⟩
+    have hlt : idx < cells.size := by
+      by_cases hlt : idx < cells.size
+      · exact hlt
+      · rw [Array.getElem?_eq_none (by omega)] at hi; simp at hi
+    have := (wf.arr_hi id (by omega)).1
+    rw [key _ (Or.inr (by omega))]
+    exact hv idx w hi
   · rw [key 1 (Or.inl (by have := wf.sp_ge; omega))]; exact h.sp
   · intro n w hn hr
     obtain ⟨a, ha, hlt, hv⟩ := h.vars n w hn hr
@@ -431,7 +483,7 @@ theorem exec_operands {t : Bool} (K : PCtx) (wf : K.WF) (l' r' : AExpr) (vl vr :
     have sC := Step.ldbm (env := K.env) (cfg (i + (K.low cr).length + 1 + 1 + (K.low cl).length) vl b3 mem3) σ.io 1 _
       hat3.head (ld_one mem3)
     have hkeep : mem3.read (K.slot gs1.offset) = vr := by
-      rw [frm3 _ (slot_ge K gs1.offset hoff) (fun k h1 h2 e => by
+      rw [frm3 _ (slot_ge K gs1.offset hoff) (wf.not_inArr _ (by unfold PCtx.slot; omega)) (fun k h1 h2 e => by
         have := slot_inj K gs1.offset k hoff (by omega) e; omega)]
       exact Mem.read_write_same _ _ _ hsl1
     have hld : Isa.ld mem3 (mem3.read 1 + IAm.W ((K.S : Int) - 1 + -(gs1.offset : Int))) = some vr := by
@@ -450,10 +502,10 @@ theorem exec_operands {t : Bool} (K : PCtx) (wf : K.WF) (l' r' : AExpr) (vl vr :
       exact st1.trans (Steps.step _ _ _ _ _ _ sA (Steps.step _ _ _ _ _ _ sB
         (st3.trans (Steps.step _ _ _ _ _ _ sC (Steps.one sD)))))
     · -- frame condition
-      intro ad hsp had
-      rw [frm3 ad hsp (fun k h1 h2 => had k (by omega) (by omega))]
+      intro ad hsp hna had
+      rw [frm3 ad hsp hna (fun k h1 h2 => had k (by omega) (by omega))]
       rw [Mem.read_write_other _ _ _ _ (fun e => had gs1.offset (by omega) (by omega) e.symm)]
-      exact frm1 ad hsp (fun k h1 h2 => had k h1 (by omega))
+      exact frm1 ad hsp hna (fun k h1 h2 => had k h1 (by omega))
   | false =>
     obtain ⟨cl, gs1, cr, h1, h2, hcode⟩ := hB hn
     have e2 := genExpr_eff _ _ _ _ _ _ h2
@@ -733,6 +785,65 @@ theorem optExpr_bin (op : BinOp) (l r : AExpr) (c : Option CInt) :
   unfold rewriteBin
   cases op <;> rfl
 
+theorem optExpr_sub (n : String) (i : AExpr) : optExpr (.sub n i) = .sub n (optExpr i) := by
+  conv => lhs; unfold optExpr
+
+/-! ### Subscripts -/
+
+theorem nonneg_ofNat (iv : Word) (h : 0 ≤ iv.toInt) : iv = BitVec.ofNat 32 iv.toInt.toNat := by
+  have h1 : iv.toInt = (iv.toNat : Int) := by
+    rw [BitVec.toInt_eq_toNat_cond] at h ⊢
+    split at h
+    · rename_i hc; rw [if_pos hc]
+    · exfalso; have := iv.isLt; omega
+  rw [h1]
+  simp
+
+theorem arrGet_glob (σ : X.St) (id : Nat) (iv w : Word) (h : X.arrGet σ (.glob id) iv = .ok w) :
+    ∃ cells, σ.arrays[id]? = some cells ∧ 0 ≤ iv.toInt ∧ iv.toInt < cells.size ∧
+      cells[iv.toInt.toNat]? = some (some w) := by
+  unfold X.arrGet at h
+  simp only at h
+  cases hc : σ.arrays[id]? with
+  | none => rw [hc] at h; simp at h
+  | some cells =>
+    rw [hc] at h
+    simp only at h
+    split at h
+    · rename_i hb
+      refine ⟨cells, rfl, hb.1, hb.2, ?_⟩
+      split at h
+      · rename_i w' hw
+        simp only [Except.ok.injEq] at h
+        rw [hw, h]
+      · simp at h
+    · simp at h
+
+theorem arrayOf_ok (xc : X.Ctx) (σ : X.St) (n : String) (ar : ArrRef) (h : X.arrayOf xc σ n = .ok ar) :
+    X.readName xc σ n = .ok (.arr ar) := by
+  unfold X.arrayOf at h
+  split at h
+  · rename_i r hr; simp only [Except.ok.injEq] at h; rw [hr, h]
+  · simp at h
+  · simp at h
+
+/-- The pointer word of the array a name denotes, and the load of one of its elements. -/
+theorem rep_elem {K : PCtx} (wf : K.WF) {σ : X.St} {mem : Mem} (hr : Rep K σ mem) (n : String) (ar : ArrRef)
+    (iv w : Word) (ha : X.arrayOf K.xc σ n = .ok ar) (hg : X.arrGet σ ar iv = .ok w) :
+    ∃ id ad, K.loc n = some ad ∧ ad < memWords ∧ mem.read ad = BitVec.ofNat 32 (K.abase id) ∧
+      Isa.ld mem (BitVec.ofNat 32 (K.abase id) + iv) = some w := by
+  obtain ⟨id, ad, hid, hloc, hlt, hptr⟩ := hr.aptr n ar (arrayOf_ok _ _ _ _ ha)
+  subst hid
+  obtain ⟨cells, hc, h0, h1, hcell⟩ := arrGet_glob σ id iv w hg
+  obtain ⟨hsz, hv⟩ := hr.acells id cells hc
+  have hidx : iv.toInt.toNat < K.asize id := by omega
+  have hb := (wf.arr_hi id (by omega)).2
+  refine ⟨id, ad, hloc, hlt, hptr, ?_⟩
+  have e1 : BitVec.ofNat 32 (K.abase id) + iv = BitVec.ofNat 32 (K.abase id + iv.toInt.toNat) := by
+    conv => lhs; rw [nonneg_ofNat iv h0]
+    rw [BitVec.ofNat_add]
+  rw [e1, ld_ofNat _ _ (by omega), hv _ _ hcell]
+
 theorem optExpr_un (op : UnOp) (e : AExpr) (c : Option CInt) :
     optExpr (.un op e c) =
       if c.isNone ∧ op = .neg then .bin .minus (.num 0 none) (if c.isSome then e else optExpr e) none
@@ -953,9 +1064,57 @@ theorem expr_pure_correct (K : PCtx) (wf : K.WF) : ∀ (fuel : Nat) (e : X.Expr)
     | num x => exact hconst x rfl rfl
     | bool b => exact hconst _ rfl rfl
     | str bs => simp [pureE] at hp
-    | sub n i => simp [pureE] at hp
     | call f args => simp [pureE] at hp
     | syscall id args => simp [pureE] at hp
+    | sub n i =>
+      simp only [pureE] at hp
+      obtain ⟨st, iv, ar, w, h1, h2, h3, h4, h5⟩ := eval_sub _ _ _ _ _ _ _ hev
+      simp only [Val.int.injEq] at h5
+      subst h5
+      have hs0 := tick_same _ _ _ h1
+      have hs1 := eval_pure K.xc _ _ _ _ _ hp h2
+      have hs := hs0.trans hs1
+      intro gs code gs' i0 a b mem hg hat hr hsz hnl hci
+      simp only [annotate] at hg
+      rw [optExpr_sub] at hg
+      obtain ⟨sym, hl, hcase⟩ := genExpr_sub_inv _ _ _ _ _ _ _ hg
+      rcases hcase with ⟨c, hc, hcode, hgs⟩ | ⟨hc, ci, hgi, hcode⟩
+      · -- constant index: pointer into areg, `LDAI index`
+        subst hcode; subst hgs
+        obtain ⟨id, ad, hloc, hlt, hptr, hld⟩ := rep_elem wf (hr.same hs) n ar iv v h3 h4
+        have hciv : iv = c := annot_sound K.ρ K.xc fuel i st iv σ' c hp (hr.same hs0).valsOk h2 (opt_const K.ρ i c hc).1
+        simp only [low_append] at hat ⊢
+        have s1 := exec_genVar K wf .A n sym σ i0 a b mem σ.io ad hl hat.left hr hloc hlt
+        simp only at s1
+        have hl1 : K.low [iLDAI c.toInt] = [.imm 0x6 c.toInt] := rfl
+        rw [hl1] at hat ⊢
+        have s2 := Step.ldai (env := K.env) (cfg (i0 + (K.low (genVar .A sym)).length) (mem.read ad) b mem) σ.io c.toInt v
+          hat.right.head (by show Isa.ld mem (mem.read ad + IAm.W c.toInt) = some v; rw [hptr, W_toInt, ← hciv]; exact hld)
+        refine ⟨b, mem, ?_, hr, FrmC.refl _ _ _ _⟩
+        simp only [List.length_append, List.length_cons, List.length_nil, ← Nat.add_assoc]
+        exact s1.trans (Steps.one s2)
+      · -- computed index: index into areg, pointer into breg, `ADD; LDAI 0`
+        subst hcode
+        have hA := (ih i st iv σ' hp h2).same hs0.symm
+        simp only [low_append, List.append_assoc] at hat ⊢
+        obtain ⟨b1, mem1, st1, rep1, frm1⟩ := hA gs ci gs' i0 a b mem hgi hat.left hr hsz hnl hci
+        obtain ⟨id, ad, hloc, hlt, hptr, hld⟩ := rep_elem wf (rep1.same hs) n ar iv v h3 h4
+        have s2 := exec_genVar K wf .B n sym σ (i0 + (K.low ci).length) iv b1 mem1 σ.io ad hl hat.right.left rep1 hloc hlt
+        simp only at s2
+        have hl1 : K.low [iADD, iLDAI 0] = [.opr 1, .imm 0x6 0] := rfl
+        rw [hl1] at hat ⊢
+        have hadd := hat.right.right.get 0 _ rfl
+        have hldi := hat.right.right.get 1 _ rfl
+        simp only [Nat.add_zero] at hadd hldi
+        have s3 := Step.add (env := K.env) (cfg (i0 + (K.low ci).length + (K.low (genVar .B sym)).length) iv (mem1.read ad) mem1) σ.io hadd
+        have s4 := Step.ldai (env := K.env) (cfg (i0 + (K.low ci).length + (K.low (genVar .B sym)).length + 1) (iv + mem1.read ad) (mem1.read ad) mem1)
+          σ.io 0 v hldi (by
+            show Isa.ld mem1 (iv + mem1.read ad + IAm.W 0) = some v
+            have : IAm.W 0 = (0#32 : Word) := by decide
+            rw [this, BitVec.add_zero, hptr, BitVec.add_comm]; exact hld)
+        refine ⟨mem1.read ad, mem1, ?_, rep1, frm1⟩
+        simp only [List.length_append, List.length_cons, List.length_nil, ← Nat.add_assoc]
+        exact st1.trans (s2.trans (Steps.step _ _ _ _ _ _ s3 (Steps.one s4)))
     | name n =>
       cases hρ : K.ρ n with
       | some c => exact hconst c (by simp [annotate, hρ]) (by simp [annotate, optExpr])
